@@ -14,6 +14,36 @@ use exec::*;
 use program::*;
 use serde::Serialize;
 
+/// `--quarantine`: freed memory is never handed out again (it is leaked), so the native liveness monitor
+/// (`Tag::live`, which reads an id that `Drop` zeroes) sees every dangling reference deterministically instead of
+/// only when the allocator happens not to have re-used the block. Used for the single-history re-runs that
+/// attribute a Miri / ASan / valgrind report to a native signature.
+struct QuarantineAlloc;
+static QUARANTINE: std::sync::atomic::AtomicBool = std::sync::atomic::AtomicBool::new(false);
+unsafe impl std::alloc::GlobalAlloc for QuarantineAlloc {
+    unsafe fn alloc(&self, l: std::alloc::Layout) -> *mut u8 {
+        unsafe { std::alloc::System.alloc(l) }
+    }
+    unsafe fn dealloc(&self, p: *mut u8, l: std::alloc::Layout) {
+        if !QUARANTINE.load(std::sync::atomic::Ordering::Relaxed) {
+            unsafe { std::alloc::System.dealloc(p, l) }
+        }
+    }
+    unsafe fn realloc(&self, p: *mut u8, l: std::alloc::Layout, n: usize) -> *mut u8 {
+        if QUARANTINE.load(std::sync::atomic::Ordering::Relaxed) {
+            let q = unsafe { std::alloc::System.alloc(std::alloc::Layout::from_size_align_unchecked(n, l.align())) };
+            if !q.is_null() {
+                unsafe { std::ptr::copy_nonoverlapping(p, q, l.size().min(n)) };
+            }
+            q
+        } else {
+            unsafe { std::alloc::System.realloc(p, l, n) }
+        }
+    }
+}
+#[global_allocator]
+static GLOBAL: QuarantineAlloc = QuarantineAlloc;
+
 struct Rng(u64);
 impl Rng {
     fn next(&mut self) -> u64 {
@@ -327,6 +357,9 @@ fn add_stats(total: &mut BTreeMap<String, usize>, s: &Stats) {
 fn main() {
     let args: Vec<String> = std::env::args().collect();
     let cmd = args.get(1).map(|s| s.as_str()).unwrap_or("");
+    if args.iter().any(|a| a == "--quarantine") {
+        QUARANTINE.store(true, std::sync::atomic::Ordering::Relaxed);
+    }
     // keep panic messages of caught panics quiet
     if std::env::var("PICO_MON_LOUD").is_err() {
         std::panic::set_hook(Box::new(|_| {}));
